@@ -657,19 +657,30 @@ Proof.
 Qed.
 
 Theorem spec_ip_key_none s : parse_addr s = None -> spec_ip_key s = None /\ impl_ip_key s = None.
-Proof. intros H. unfold spec_ip_key, impl_ip_key, parse_ip_legacy. rewrite H. split; reflexivity. Qed.
+Proof. intros H. unfold spec_ip_key, impl_ip_key. rewrite H. split; reflexivity. Qed.
 
-(* the faithful model and the demanded one agree on every text without a zone ... *)
-Theorem impl_ip_key_eq_spec_off_trigger s : zone_trigger s = false -> impl_ip_key s = spec_ip_key s.
+(* today's code (after fix 2006028) is what the property demands, on every text *)
+Theorem ip_key_impl_is_spec s : impl_ip_key s = spec_ip_key s.
+Proof. reflexivity. Qed.
+
+(* so the grouping theorem holds for the code's key function *)
+Theorem impl_ip_key_groups s1 s2 a1 a2 :
+  parse_addr s1 = Some a1 -> parse_addr s2 = Some a2 ->
+  (impl_ip_key s1 = impl_ip_key s2 <-> key_of_addr (strip_zone a1) = key_of_addr (strip_zone a2)) /\
+  impl_ip_key s1 <> None.
+Proof. intros H1 H2. rewrite !ip_key_impl_is_spec. apply spec_ip_key_groups; assumption. Qed.
+
+(* PRE-FIX code (before 2006028): agreed with the demand on every text without a zone ... *)
+Theorem prefix_ip_key_eq_spec_off_trigger s : zone_trigger s = false -> prefix_ip_key s = spec_ip_key s.
 Proof.
-  unfold zone_trigger, impl_ip_key, spec_ip_key, parse_ip_legacy. destruct (parse_addr s) as [a|]; [|reflexivity].
+  unfold zone_trigger, prefix_ip_key, spec_ip_key, parse_ip_legacy. destruct (parse_addr s) as [a|]; [|reflexivity].
   intros H. rewrite H. unfold has_zone in H. destruct a as [f b z]. cbn [zone] in H. destruct z; [|discriminate].
   unfold strip_zone, with_zone. cbn [fam abits]. destruct f; reflexivity.
 Qed.
 
-(* ... and differ on zoned ones: finding C34-1 *)
-Theorem ip_key_zone_refuted : exists s,
-  zone_trigger s = true /\ impl_ip_key s = None /\ spec_ip_key s <> None /\
+(* ... and differed on zoned ones: finding C34-1 as it was before the fix *)
+Theorem prefix_ip_key_zone_refuted : exists s,
+  zone_trigger s = true /\ prefix_ip_key s = None /\ spec_ip_key s <> None /\
   spec_ip_key s = spec_ip_key [102; 101; 56; 48; 58; 58; 49].       (* "fe80::1%eth0" groups with "fe80::1" *)
 Proof.
   exists [102; 101; 56; 48; 58; 58; 49; 37; 101; 116; 104; 48].
@@ -769,5 +780,6 @@ Example ip_key_samples :
   spec_ip_key (tx "2001:db8:0:1::1"%string) = spec_ip_key (tx "2001:db8:0:1:ffff:ffff:ffff:ffff"%string) /\
   spec_ip_key (tx "2001:db8:0:1::1"%string) <> spec_ip_key (tx "2001:db8:0:2::1"%string) /\
   spec_ip_key (tx "::10.1.2.3"%string) <> spec_ip_key (tx "10.1.2.3"%string) /\
-  spec_ip_key (tx "pipe"%string) = None.
+  spec_ip_key (tx "pipe"%string) = None /\
+  impl_ip_key (tx "fe80::1%eth0"%string) = impl_ip_key (tx "fe80::1"%string) /\ impl_ip_key (tx "fe80::1%eth0"%string) <> None.
 Proof. repeat split; vm_compute; congruence. Qed.
